@@ -133,6 +133,8 @@ def run(p, led, tier):
                     probs.append(f"request_hash `{s}` does not derive from the prompt")
                 if "hashlib." not in s:
                     probs.append(f"request_hash `{s}` is not a hash of the prompt")
+                elif _key_provenance(rh):
+                    probs.append(f"request_hash `{s}` {_key_provenance(rh)}")
                 foreign = [w for w in ("payload_", "confidence_", "clock", "failure_", "cache_") if w in s]
                 if foreign:
                     probs.append(f"request_hash `{s}` mixes in {foreign}")
@@ -156,6 +158,9 @@ def run(p, led, tier):
             consulted = [e for e in b["events"] if e[0] == "express"]
             if not consulted:
                 hits += 1
+                if not isinstance(b["obj"], Obj):
+                    probs.append(f"cache hit returns {b['obj']!r}, not the stored record")
+                    continue
                 fa, fb = a["fields"], dict(b["obj"].fields)
                 for fld in ("blocked", "success", "action", "approval_token", "block_reason"):
                     if fa.get(fld) is not fb.get(fld) and fa.get(fld) != fb.get(fld):
@@ -164,8 +169,30 @@ def run(p, led, tier):
                     probs.append("cache hit not flagged as cached")
         if not hits:
             probs.append("no path of the second call is a cache hit (cache no longer consulted before the agents)")
+        # the cache key must identify the request: derived from the prompt through encode + a hashlib digest only
+        for _, out in paths:
+            for k in out["loop"].fields.get("_cache", {}):
+                why = _key_provenance(k)
+                if why:
+                    probs.append(f"cache key `{k.sym if isinstance(k, Unknown) else k!r}` {why}")
         if probs:
             led.fail("C07-R4", key, where(runm, runm.node), "; ".join(sorted(set(probs))))
         else:
             led.ok("C07-R4", key, where(runm, runm.node), f"{len(paths)} path(s), {hits} cache hit(s): no agent consulted, verdict fields identical, cached=True")
     led.extra["tokens_seen"] = tokens_seen
+
+
+def _key_provenance(k):
+    """None if k is hashlib.<algo>(user_prompt.encode(...)).hexdigest()[:n] (the request itself, hashed); else why not"""
+    import re
+    if not isinstance(k, Unknown):
+        return "is a constant: every request shares it"
+    s = k.sym
+    if s in ("user_prompt", "user_prompt.encode()"):
+        return None
+    m = re.fullmatch(r"hashlib\.\w+\(user_prompt\.encode\([^()]*\)\)\.(hexdigest|digest)\(\)(\[\d*:\d*\])?", s)
+    if m:
+        return None
+    if "user_prompt" not in s:
+        return "does not derive from the prompt"
+    return "is not a digest of the prompt itself: the prompt is transformed first, so different requests can share one entry / one token"
